@@ -29,9 +29,10 @@ RULE = (
     "file-vs-directory keys, inserted in shuffled dict order; triples are biased towards one- or two-sided edits "
     "of the ancestor (add / remove / change per key) so that successes, conflicts, double removals and policy "
     "refusals all occur; policies: None, [] and every non-empty sublist of add/remove/change, some reordered. "
-    "quick: seeded samples of all streams + a sample of sweep rows; thorough: additionally ALL triples over "
-    "3 keys x (absent + 3 values) x 7 policies on _merge (+ a quarter again under None and []), all triples over "
-    "2 keys x (absent + 3 real values) x 9 policies, and "
+    "quick: seeded samples of all streams + a sample of sweep rows; thorough: additionally on _merge ALL triples "
+    "over 3 keys x (absent + 3 values) under add+remove+change (+ 2000 sampled rows under the other policies), ALL "
+    "triples over 3 keys x (absent + 2 values) x 9 policies, ALL triples over 2 keys x (absent + 3 real values) x 9 "
+    "policies, and "
     "all triples over 2 keys x (absent + 2 values) x 4 policies through merge() on a real object store. A case is non-trivial "
     "when both sides differ from the ancestor (the code reaches the double patch) or the call raised."
 )
@@ -815,24 +816,33 @@ def run(ctx):
 
     ks3 = [("a",), ("d", "b"), ("d", "c")]
     cells3 = list(itertools.product(range(4), repeat=3))
+    ALL = ["add", "remove", "change"]
+    s3_items, s2_items = [], []
     if thorough:
-        rows = [(a, o, pol) for pol in POLS[2:] for a in cells3 for o in cells3]
-        # None and [] are turned into ["add"] by one line ("if not allowed"): a quarter of the rows each
-        rows += [(a, o, pol) for pol in POLS[:2] for a in cells3 for o in cells3 if ctx.rng.random() < 0.25]
+        # (i) ALL 64^3 triples over 3 keys x (absent + 3 values) under the policy that admits every edit
+        #     (the whole three-way logic: double patch, KeyError mapping, conflict detection) ...
+        rows = [(a, o, ALL) for a in cells3 for o in cells3]
+        # ... and sampled rows of that universe under the other policies
+        rows += [(ctx.rng.choice(cells3), ctx.rng.choice(cells3), ctx.rng.choice(POLS[:-1])) for _ in range(2000)]
     else:
         rows = [(ctx.rng.choice(cells3), ctx.rng.choice(cells3), ctx.rng.choice(POLS)) for _ in range(ctx.n(150, 0))]
     s_items = sweep_rows(ctx, svals, ks3, 4, rows, "str")
-    s2_items = []
     if thorough:
+        # (ii) ALL 27^3 triples over 3 keys x (absent + 2 values) x all 9 policies
+        cells3b = list(itertools.product(range(3), repeat=3))
+        rows3 = [(a, o, pol) for pol in POLS for a in cells3b for o in cells3b]
+        s3_items = sweep_rows(ctx, Values(["x", "y"]), ks3, 3, rows3, "str")
+        # (iii) ALL 16^3 triples over 2 keys x (absent + 3 real (Meta, HashInfo) values) x all 9 policies
         ks2 = [("é",), ("d", "b")]
         cells2 = list(itertools.product(range(4), repeat=2))
         rows2 = [(a, o, pol) for pol in POLS for a in cells2 for o in cells2]
         s2_items = sweep_rows(ctx, Values(value_pool()[:3]), ks2, 4, rows2, "pool")
+    n_sweep = len(s_items) * 64 + len(s3_items) * 27 + len(s2_items) * 16
     ctx.obligation("oracle:_merge-sweep", oracle_ok(ctx),
-                   f"{len(s_items) * 64 + len(s2_items) * 16} real _merge runs over complete their-listing ranges "
-                   + ("(ALL triples over 3 keys x 4 cells x the 7 non-empty policies, a quarter of them again under "
-                      "None and []; ALL triples over 2 keys x 4 cells x 9 policies with real values)"
-                      if thorough else "(sampled rows)"))
+                   f"{n_sweep} real _merge runs over complete their-listing ranges "
+                   + ("(ALL 262144 triples over 3 keys x 4 cells under add+remove+change, 2000 sampled rows under the "
+                      "other policies; ALL triples over 3 keys x 3 cells x 9 policies; ALL triples over 2 keys x 4 cells "
+                      "x 9 policies with real values)" if thorough else "(sampled rows)"))
     ctx.extra["exhaustive"] = thorough
     tm["py_sweep"] = round(time.time() - t0, 2)
     t0 = time.time()
@@ -851,6 +861,7 @@ def run(ctx):
         ("dictdiffer_diff", "diff_in", "run_diff", d_items),
         ("dictdiffer_patch", "patch_in", "run_patch", p_items),
         ("sweep", "sweep_in", "run_sweep", s_items),
+        ("sweep_small", "sweep_in", "run_sweep", s3_items),
         ("sweep_values", "sweep_in", "run_sweep", s2_items),
         ("tree", "tree_in", "run_tree", t_items),
     ):
@@ -861,7 +872,7 @@ def run(ctx):
     tm["coq"] = round(time.time() - t0, 2)
     ctx.extra["timing_s"] = tm
     ctx.extra["streams"] = {"diff": len(d_items), "patch": len(p_items), "merge": len(m_items),
-                            "sweep_rows": len(s_items) + len(s2_items), "tree": len(t_items),
+                            "sweep_rows": len(s_items) + len(s3_items) + len(s2_items), "sweep_merges": n_sweep, "tree": len(t_items),
                             "merge_evaluations_before_sweep": n_merge_eval}
 
 
